@@ -230,13 +230,13 @@ fn parse_field(field: &str, spec: &FieldSpec) -> FieldVerdict {
 
 /// The reference reading of a cron expression.
 pub fn reference_parse(expr: &str) -> Verdict {
-    // Fields: separated by whitespace. ASCII space, tab, newline, CR and FF are unquestionably
-    // whitespace; other separators (VT, Unicode spaces) are left undetermined if they matter.
-    let is_ws = |c: char| matches!(c, ' ' | '\t' | '\n' | '\r' | '\u{c}');
+    // Fields: separated by whitespace. Space and tab are unquestionably whitespace in a crontab
+    // line; any other separator (newline, CR, FF, VT, Unicode spaces) is left undetermined.
+    let is_ws = |c: char| matches!(c, ' ' | '\t');
     let exotic_ws = expr.chars().any(|c| !is_ws(c) && c.is_whitespace());
     let fields: Vec<&str> = expr.split(is_ws).filter(|f| !f.is_empty()).collect();
     if exotic_ws {
-        return Verdict::Undetermined("separator outside ASCII space/tab/newline".into());
+        return Verdict::Undetermined("separator other than space or tab".into());
     }
     if fields.len() != 5 {
         return Verdict::Reject(format!("{} fields", fields.len()));
